@@ -95,11 +95,14 @@ def ladder(cut: int, rst: bool, fail: int, ei: int) -> bool:
     cfg = W.make_cfg(**settings)
     mk = {"sync": W.sync_worker, "gthread": W.thread_worker, "async": W.async_worker}[kind]
     w = mk(cfg, app)
+    w.log.render = True                       # access logging on: the real Logger.atoms() runs for every record
     truncated = cut < len(data)
     script = [data[:cut]] if cut else []
     if truncated and rst:
         script.append(errno.ECONNRESET)
-    c = RecSock(script, send_fail=(None if fail < 0 else fail), send_errno=ERRNOS[ei])
+    # a peer that reset the connection: shutdown() on the socket fails with ENOTCONN; the server still has to close it
+    c = RecSock(script, send_fail=(None if fail < 0 else fail), send_errno=ERRNOS[ei],
+                shutdown_errno=(errno.ENOTCONN if rst else None))
     _serve(kind, w, c)
     is_valid_full = CASE["req"] == "valid" and not truncated
     if is_valid_full:
